@@ -212,7 +212,7 @@ var propertyEntries = map[string][]string{
 	"C03": {"pkg/cafs.defaultFs.Get", "pkg/cafs.defaultFs.GetAt", "pkg/cafs.chunkReader.", "pkg/core.Publish", "pkg/core.PublishFile", "pkg/core.PublishSelectBundleEntries", "pkg/core.Update"},
 	"C04": {"pkg/core.Upload", "pkg/core.UploadSpecificKeys", "pkg/core.Publish", "pkg/core.PublishSelectBundleEntries", "pkg/core.PublishFile", "pkg/core.PublishMetadata", "pkg/core.DownloadMetadata"},
 	"C05": {"pkg/core.Diff", "pkg/core.Update", "pkg/core.Publish", "pkg/core.Upload"},
-	"C06": {"pkg/core.Upload", "pkg/core.UploadSpecificKeys", "pkg/core.ListBundles", "pkg/core.ListBundlesApply", "pkg/core.GetLatestBundle", "pkg/core.Publish", "pkg/core.Diamond.Commit", "pkg/core.GetBundleTimeStamp"},
+	"C06": {"pkg/core.Upload", "pkg/core.UploadSpecificKeys", "pkg/core.ListBundles", "pkg/core.ListBundlesApply", "pkg/core.GetLatestBundle", "pkg/core.Publish", "pkg/core.Diamond.Commit", "pkg/core.GetBundleTimeStamp", "pkg/core.Bundle.UploadBundleEntries"},
 	"C07": {"pkg/core.ListRepos", "pkg/core.ListReposApply", "pkg/core.ListBundles", "pkg/core.ListBundlesApply", "pkg/core.ListLabels", "pkg/core.ListLabelsApply", "pkg/core.ListDiamonds", "pkg/core.ListDiamondsApply", "pkg/core.ListSplits", "pkg/core.ListSplitsApply"},
 	"C08": {"pkg/core.Label.", "pkg/core.ListLabels", "pkg/core.ListLabelsApply", "pkg/core.DeleteLabel", "pkg/core.DeleteRepo", "pkg/core.RepoSquash", "pkg/core.GetLabelStore", "pkg/model.NewLabelDescriptor", "pkg/model.LabelName", "pkg/core.NewLabel"},
 	"C09": {"pkg/core.CreateRepo", "pkg/core.DeleteRepo", "pkg/core.RenameRepo", "pkg/core.DeleteEntriesFromRepo", "pkg/core.GetRepo", "pkg/core.ListRepos", "pkg/core.RepoExists"},
@@ -319,6 +319,20 @@ var sharedPool = []sharedRule{
 	{"meta-regexp-anchored", func(c *Ctx, r string) { checkMetaRegexpAnchored(c, r) }},
 	{"writeat-offset-advances", func(c *Ctx, r string) { checkWriteAtOffsetAdvances(c, r) }},
 	{"list-apply-errors", func(c *Ctx, r string) { checkListApplySiblings(c, r) }},
+	{"scan-prefixes-closed", func(c *Ctx, r string) { checkScanPrefixesClosed(c, r) }},
+	{"entry-strings-keyed-by-name", func(c *Ctx, r string) { checkEntryStringsKeyedByName(c, r) }},
+	{"diamond-descriptors-never-deleted", func(c *Ctx, r string) { checkDiamondDescriptorsNeverDeleted(c, r) }},
+	{"fetchers-test-error-first", func(c *Ctx, r string) { checkFetchersTestErrorFirst(c, r) }},
+	{"metadata-read-whole", func(c *Ctx, r string) { checkMetadataReadWhole(c, r) }},
+	{"protocol-sends-unconditional", func(c *Ctx, r string) { checkProtocolSendsUnconditional(c, r, "pkg/core", "pkg/cafs") }},
+	{"no-global-ksuid-source", func(c *Ctx, r string) { checkNoGlobalKsuidSource(c, r) }},
+	{"wal-pool-sized", func(c *Ctx, r string) { checkWALPoolSized(c, r) }},
+	{"tracker-keys-fresh", func(c *Ctx, r string) { checkTrackerKeysFresh(c, r) }},
+	{"read-only-stores-frozen", func(c *Ctx, r string) { checkReadOnlyStoresFrozen(c, r) }},
+	{"every-listed-repo-scanned", func(c *Ctx, r string) { checkEveryListedRepoScanned(c, r) }},
+	{"glob-keyed-by-prefix", func(c *Ctx, r string) { checkGlobKeyedByPrefix(c, r) }},
+	{"drop-deletes-what-it-lists", func(c *Ctx, r string) { checkDropDeletesWhatItLists(c, r) }},
+	{"commit-worker-always-reports", func(c *Ctx, r string) { checkCommitWorkerAlwaysReports(c, r) }},
 	{"writer-buf-leaf-sized", func(c *Ctx, r string) { checkWriterBufIsLeafSized(c, r) }},
 	{"glob-cache-writers", func(c *Ctx, r string) { checkGlobCacheWriters(c, r) }},
 	{"nothing-deleted-after-repo-descriptor", func(c *Ctx, r string) { checkNothingDeletedAfterRepoDescriptor(c, r) }},
